@@ -15,7 +15,7 @@ namespace Tr.Load
 
 def K (kind i : Nat) : Nat := kind * 281474976710656 + i
 
-def modeName (m : Nat) : String := if m = 0 then "bus" else if m = 1 then "rail" else "transferable"
+def modeName (m : Nat) : String := if m = 0 then "tram" else if m = 1 then "tramTrain" else "transferable"
 
 /-- uuid texts `K k i, K k (i+1), …` (`n` of them) -/
 def idsFrom (k : Nat) : Nat → Nat → List UTok
